@@ -316,7 +316,7 @@ impl<const H: usize> Writer<H> {
 
         self.sync()?;
 
-        self.flushed_offset.set(offset);
+        self.flushed_offset.truncate(offset);
         self.write_offset = offset;
         // The buffered writer's cursor is still behind the truncated data: move it back so
         // the next append lands at the new write offset
